@@ -200,7 +200,7 @@ def world_pixels(g):
 
 
 def small(*gs):
-    return all(int(g.shape[0]) * int(g.shape[1]) <= 120 for g in gs)
+    return all(int(g.shape[0]) * int(g.shape[1]) <= 120 and max(int(g.shape[0]), int(g.shape[1])) <= 120 for g in gs)
 
 
 def chk_inter(ops, res, slack=Fr(0)):
